@@ -34,6 +34,11 @@ const ZACHARY: [(i32, i32); 78] = [
     (30, 32), (30, 33), (31, 32), (31, 33), (32, 33),
 ];
 
+/// seeds: mostly uniform, sometimes at the edges of the u64 range
+pub fn seed_strategy() -> BoxedStrategy<u64> {
+    prop_oneof![10 => any::<u64>(), 1 => prop::sample::select(vec![0u64, 1, 2, u64::MAX, u64::MAX - 1, u64::MAX - 3, u64::MAX - 299, 1 << 63, (1 << 63) - 1, (1 << 32) - 1, 1 << 32])].boxed()
+}
+
 pub fn decode_p(pclass: u8, praw: u32) -> f64 {
     match pclass % 6 {
         0 => ((praw % 999) as f64 + 0.5) / 1000.0,                 // mid range
@@ -117,7 +122,7 @@ impl Prop for C16 {
     }
     fn strategy(&self, _tier: Tier) -> BoxedStrategy<GenCase> {
         prop_oneof![
-            12 => (0u16..=300, any::<u8>(), any::<u32>(), any::<bool>(), any::<u64>()).prop_map(|(n, pclass, praw, directed, seed)| GenCase::Gnp { n, pclass, praw, directed, seed }),
+            12 => (0u16..=300, any::<u8>(), any::<u32>(), any::<bool>(), seed_strategy()).prop_map(|(n, pclass, praw, directed, seed)| GenCase::Gnp { n, pclass, praw, directed, seed }),
             6 => (prop_oneof![0u16..=20, 250u16..=300], prop_oneof![Just(1u8), Just(3u8)], any::<u32>(), any::<bool>(), any::<u64>(), 1u16..400).prop_map(|(n, pclass, praw, directed, seed0, count)| GenCase::GnpBatch { n, pclass, praw, directed, seed0, count }),
             2 => (0u16..=300, 0u8..7, any::<bool>(), any::<u64>()).prop_map(|(n, which, directed, seed)| GenCase::GnpInvalid { n, which, directed, seed }),
             1 => (61u16..=300, any::<bool>()).prop_map(|(n, directed)| GenCase::Complete { n, directed }),
